@@ -18,22 +18,22 @@ Record uinfo := mkU {
 Section Ident.
 Variable U : uinfo.
 
-Inductive cstate := SNothing | SLower | SUpper | SNoCase | SNumber | SDelim.
+Inductive cstate := CSNothing | CSLower | CSUpper | CSNoCase | CSNumber | CSDelim.
 Definition cstate_eqb (a b : cstate) : bool :=
   match a, b with
-  | SNothing, SNothing | SLower, SLower | SUpper, SUpper | SNoCase, SNoCase | SNumber, SNumber | SDelim, SDelim => true
+  | CSNothing, CSNothing | CSLower, CSLower | CSUpper, CSUpper | CSNoCase, CSNoCase | CSNumber, CSNumber | CSDelim, CSDelim => true
   | _, _ => false
   end.
 
 (* the switch of cases.go:110-125 *)
 Definition classify (r : N) : cstate :=
-  if u_lower U r then SLower
-  else if u_upper U r then SUpper
-  else if u_number U r then SNumber
-  else if negb (u_letter U r) then SDelim
-  else SNoCase.
+  if u_lower U r then CSLower
+  else if u_upper U r then CSUpper
+  else if u_number U r then CSNumber
+  else if negb (u_letter U r) then CSDelim
+  else CSNoCase.
 
-Definition is_delim (s : cstate) : bool := match s with SDelim => true | _ => false end.
+Definition is_delim (s : cstate) : bool := match s with CSDelim => true | _ => false end.
 Definition nonempty (l : list N) : bool := match l with [] => false | _ => true end.
 Definition push_part (part : list N) (acc : list str) : list str := if nonempty part then rev part :: acc else acc.
 
@@ -47,11 +47,11 @@ Fixpoint split_go (rest : list N) (cur : cstate) (part : list N) (acc : list str
       if cstate_eqb nxt cur then split_go rest' cur (if is_delim cur then [] else r :: part) acc
       else if is_delim cur then split_go rest' nxt [r] acc
       else match cur, nxt with
-           | SUpper, SLower => split_go rest' nxt (r :: part) acc
+           | CSUpper, CSLower => split_go rest' nxt (r :: part) acc
            | _, _ => split_go rest' nxt (if is_delim nxt then [] else [r]) (push_part part acc)
            end
   end.
-Definition split_ident (s : str) : list str := split_go s SNothing [] [].
+Definition split_ident (s : str) : list str := split_go s CSNothing [] [].
 
 (* strings.EqualFold on valid UTF-8: rune-wise, same simple-fold orbit *)
 Fixpoint equal_fold (a b : str) : bool :=
